@@ -711,8 +711,7 @@ func (g *gen) step() {
 		if !prime {
 			return
 		}
-		// not on operands shorter than the modulus (probe "inverse/short-operand")
-		if a := g.pickWhere(func(m *emir) bool { return m.val.Sign() != 0 && !(m.konst && !m.std) && !m.wide }); a >= 0 {
+		if a := g.pickWhere(func(m *emir) bool { return m.val.Sign() != 0 }); a >= 0 {
 			g.opInv(a)
 		}
 	case k < 74:
@@ -757,8 +756,8 @@ func (g *gen) step() {
 		}
 		g.opFromBits(b, n)
 	case k < 92:
-		// not on zero-overflow elements wider or shorter than the modulus (probes "iszero/...")
-		if a := g.pickWhere(func(m *emir) bool { return !m.wide && !(m.konst && !m.std && !m.zeroL) }); a >= 0 {
+		// not on zero-overflow elements possibly wider than the modulus (open finding, probe "iszero/frombits-multiple-of-modulus")
+		if a := g.pickWhere(func(m *emir) bool { return !m.wide }); a >= 0 {
 			g.opIsZero(a)
 		}
 	case k < 95:
@@ -790,13 +789,15 @@ func (g *gen) step() {
 
 func (g *gen) smallConst() *big.Int {
 	r := g.rng
-	switch r.IntN(8) {
+	switch r.IntN(9) {
 	case 0:
 		return big.NewInt(0)
 	case 1:
 		return big.NewInt(1)
 	case 2:
 		return big.NewInt(2)
+	case 8: // negative constant
+		return big.NewInt(-int64(1 + r.IntN(1000)))
 	case 3: // wide constant: drives the overflow counter in one step
 		return randBits(r, 1+r.IntN(int(g.maxCbl)))
 	default:
@@ -839,6 +840,9 @@ func (g *gen) genEval() {
 	var coefs []int
 	for i := 0; i < nt; i++ {
 		d := 1 + r.IntN(maxDeg)
+		if i > 0 && r.IntN(5) == 0 {
+			d = 0 // constant term
+		}
 		t := make([]int, d)
 		for j := range t {
 			t[j] = r.IntN(len(args))
@@ -1212,5 +1216,69 @@ func genBoundaryProgram(rng *rand.Rand, fc *fieldCase, nativeBits int) *program 
 		g.opToBits(acc, false)
 	}
 	g.assert("AssertIsEqual", acc, g.addInputE(g.e(acc).val))
+	return p
+}
+
+// ---------------- subtraction extremes (fixed modulus) ----------------
+//
+// The fixed-modulus subtraction padding is a compile-time constant (no hint to
+// lie to), so a padding that is too small for the subtrahend's overflow can
+// only show on honest inputs whose limbs are as large as the tracked overflow
+// allows: subtrahend = sum of k+1 witnesses (overflow k = 1..4) whose limb at
+// one position is maximal, minuend with a zero limb there.
+func genSubExtremeProgram(rng *rand.Rand, fc *fieldCase) *program {
+	p := &program{fc: fc, vmodReg: -1}
+	g := &gen{p: p, rng: rng, mod: fc.mod, fc: fc, cap2: new(big.Int).Lsh(big.NewInt(1), uint(fc.mod.BitLen())), selReg: map[int]bool{}, maxCbl: 8}
+	k := 1 + rng.IntN(4)
+	j := rng.IntN(fc.nbLimbs)
+	limbMax := func(i int) *big.Int {
+		wd := fc.w
+		if i == fc.nbLimbs-1 {
+			wd = fc.topWidth()
+		}
+		return new(big.Int).Sub(new(big.Int).Lsh(big.NewInt(1), wd), big.NewInt(1))
+	}
+	mk := func(atJ *big.Int) int {
+		l := make([]*big.Int, fc.nbLimbs)
+		for i := range l {
+			switch {
+			case i == j:
+				l[i] = new(big.Int).Set(atJ)
+			case rng.IntN(3) == 0:
+				l[i] = limbMax(i)
+			default:
+				l[i] = randBelow(rng, new(big.Int).Add(limbMax(i), big.NewInt(1)))
+			}
+		}
+		return g.addInputERaw(joinLimbs(l, fc.w))
+	}
+	g.addInputN(big.NewInt(int64(rng.IntN(2))))
+	bsum := mk(limbMax(j))
+	for i := 0; i < k; i++ {
+		bsum = g.opAdd(bsum, mk(limbMax(j)))
+	}
+	a := mk(new(big.Int))
+	d1 := g.opSub(a, bsum)
+	g.assert("AssertIsEqual", bsum, g.addInputE(g.e(bsum).val)) // difference expected - bsum
+	d2 := g.opSub(d1, bsum)
+	g.opNeg(bsum)
+	if fc.prime {
+		if g.e(bsum).val.Sign() != 0 {
+			g.opDiv(a, bsum)
+		}
+		if g.e(a).val.Sign() != 0 {
+			g.opDiv(bsum, a)
+		}
+	}
+	switch rng.IntN(3) {
+	case 0:
+		g.opToBits(d1, true)
+	case 1:
+		g.opMul("Mul", d2, a)
+	case 2:
+		g.opToBits(d2, false)
+	}
+	g.assert("AssertIsEqual", d1, g.addInputE(g.e(d1).val))
+	g.assert("AssertIsEqual", d2, g.addInputE(g.e(d2).val))
 	return p
 }
